@@ -151,6 +151,24 @@ Proof.
            end; auto; try lia; try congruence.
 Qed.
 
+Lemma step_accept_ok c s it s' r d : step c s it = Ok s' r d -> accept_ok c (it, r) = true.
+Proof.
+  intros H.
+  unfold step, step_greet, step_ready, step_mail, step_mail_from, step_data in H.
+  destruct (st s) eqn:Es; step_cases; cbn; rewrite ?Heqb, ?Heqb0, ?Heqb1; auto;
+    repeat match goal with
+           | H : (_ && _)%bool = false |- _ => apply Bool.andb_false_iff in H as [H|H]
+           | H : negb _ = false |- _ => apply Bool.negb_false_iff in H
+           | H : negb _ = true |- _ => apply Bool.negb_true_iff in H
+           | H : (_ && _)%bool = true |- _ => apply Bool.andb_true_iff in H as [? ?]
+           end; try discriminate;
+    repeat match goal with H : _ = true |- _ => rewrite H | H : _ = false |- _ => rewrite H end;
+    try reflexivity; auto;
+    repeat match goal with
+           | |- context [match ?x with _ => _ end] => destruct x
+           end; reflexivity.
+Qed.
+
 Lemma run_forall c (P : entry -> bool) :
   (forall s it s' r d, step c s it = Ok s' r d -> P (it, r, d) = true) ->
   forall items s, forallb P (fst (run c s items)) = true.
